@@ -38,7 +38,7 @@ ASSUMPTIONS = ['emission of the enum (backends/rust.rs build_enum: `Name = <v> a
 
 
 def bounds(tier):
-    return {'variants': '<= 3 (quick), <= 4 (thorough); the statement\'s 32 is outside the bound', 'values': 'full isize range (symbolic)',
+    return {'variants': '<= 3 (quick), <= 4 (thorough) with every variant free; 8 variants with at most one written value; the statement\'s 32 is outside the bound', 'values': 'full isize range (symbolic)',
             'bases': [b[0] for b in BASES], 'pointer_size': [4, 8]}
 
 
@@ -61,6 +61,15 @@ def slices(tier, rng):
             if ps == 8 and n == 4: continue
             out.append(Slice('n%d-ps%d' % (n, ps), 't_enum', 8 + 3 * n, lambda a, n=n, ps=ps: assume(a, n, ps),
                              opts={'must_reach': ['ok', 'err']}, ctx={'n': n}))
+    # eight variants, at most one of them with a written value (any value, any position): implicit runs of length up to 8
+    def long_run(a, ps=4):
+        A = assume(a, 8, ps) + [a[3] == 0]
+        flags = [z3.If(a[8 + 3 * i] != 0, z3.BitVecVal(1, 8), z3.BitVecVal(0, 8)) for i in range(8)]
+        A.append(z3.ULE(sum(flags[1:], flags[0]), 1))
+        A += [a[8 + 3 * i + 2] == 0 for i in range(8)]
+        A += [z3.Implies(a[8 + 3 * i] == 0, a[8 + 3 * i + 1] == 0) for i in range(8)]
+        return A
+    out.append(Slice('n8-one-explicit-ps4', 't_enum', 8 + 3 * 8, long_run, opts={'must_reach': ['ok', 'err']}, ctx={'n': 8}))
     return out
 
 
